@@ -316,26 +316,43 @@ impl Env {
     /// Store pending transaction `p` through the documented path for transactions created by the
     /// wallet (`WalletWrite::store_transactions_to_be_sent`).
     pub fn store_pending(&self, w: &mut Wallet, p: usize) -> Result<(), String> {
+        self.store_pending_batch(w, &[p])
+    }
+
+    /// One `store_transactions_to_be_sent` call for the pending transactions `ps` (a multi-step
+    /// proposal stores its transactions as one batch).
+    pub fn store_pending_batch(&self, w: &mut Wallet, ps: &[usize]) -> Result<(), String> {
         use zcash_client_backend::data_api::{SentTransaction, SentTransactionOutput};
         use zcash_client_backend::wallet::{Note, Recipient};
-        let pd = &self.pend[p];
         let acct = w.acct_a;
-        let outputs: Vec<SentTransactionOutput<_>> = pd
-            .outs
+        let outputs: Vec<Vec<SentTransactionOutput<_>>> = ps
             .iter()
-            .map(|o| {
-                let recipient = match o.owner {
-                    Owner::A => Recipient::InternalShielded { receiving_account: acct, external_address: None, note: Box::new(Note::Sapling(o.note.clone())) },
-                    _ => Recipient::External { recipient_address: self.addr_sapling.to_zcash_address(&self.u.network), output_pool: PoolType::SAPLING },
-                };
-                SentTransactionOutput::from_parts(o.index, recipient, Zatoshis::from_u64(o.value).unwrap(), None)
+            .map(|p| {
+                self.pend[*p]
+                    .outs
+                    .iter()
+                    .map(|o| {
+                        let recipient = match o.owner {
+                            Owner::A => Recipient::InternalShielded { receiving_account: acct, external_address: None, note: Box::new(Note::Sapling(o.note.clone())) },
+                            _ => Recipient::External { recipient_address: self.addr_sapling.to_zcash_address(&self.u.network), output_pool: PoolType::SAPLING },
+                        };
+                        SentTransactionOutput::from_parts(o.index, recipient, Zatoshis::from_u64(o.value).unwrap(), None)
+                    })
+                    .collect()
             })
             .collect();
         let created = time::OffsetDateTime::from_unix_timestamp(1_740_441_600).unwrap();
-        let sent = SentTransaction::new(&pd.tx, created, BlockHeight::from_u32(pd.build_target).into(), acct, &outputs, Zatoshis::from_u64(pd.fee).unwrap(), &[]);
-        match mc_core::catch(|| w.db.store_transactions_to_be_sent(&[sent])) {
-            Err(pn) => Err(format!("panic in store_transactions_to_be_sent(P{p}): {pn}")),
-            Ok(Err(e)) => Err(format!("store_transactions_to_be_sent(P{p}) failed: {e:?}")),
+        let sent: Vec<SentTransaction<_>> = ps
+            .iter()
+            .zip(outputs.iter())
+            .map(|(p, outs)| {
+                let pd = &self.pend[*p];
+                SentTransaction::new(&pd.tx, created, BlockHeight::from_u32(pd.build_target).into(), acct, outs, Zatoshis::from_u64(pd.fee).unwrap(), &[])
+            })
+            .collect();
+        match mc_core::catch(|| w.db.store_transactions_to_be_sent(&sent)) {
+            Err(pn) => Err(format!("panic in store_transactions_to_be_sent(P{ps:?}): {pn}")),
+            Ok(Err(e)) => Err(format!("store_transactions_to_be_sent(P{ps:?}) failed: {e:?}")),
             Ok(Ok(())) => Ok(()),
         }
     }
